@@ -264,8 +264,8 @@ def replace_namespace(root, old_ns, new_ns):
     :return:
     """
     for elem in root.getiterator():
-        # Comments don't have a namespace
-        if elem.tag is not etree.Comment:
+        # Comments, processing instructions and entities don't have a namespace
+        if isinstance(elem.tag, str):
             # handle tag
             qtag = etree.QName(elem)
             if qtag.namespace == old_ns:
